@@ -78,4 +78,25 @@ def lookup {V : Type} (H : HK → Int) : List (Restr × V) → Restr → Option 
   | [], _ => none
   | (k', v) :: rest, k => if H (hashKey k') == H (hashKey k) && eqv k' k then some v else lookup H rest k
 
+/-- the alive instances of a class family (only well-formed restrictions can be constructed) -/
+abbrev Alive := {l : List Restr // ∀ r ∈ l, wf r = true}
+
+/-- the instance cache of `WeakInstMeta` as a concrete state: the alive instances.  A constructor call is a dict lookup
+(equal hash, `==`) of the would-be instance among them; a miss registers the new instance.  (Weak references that die
+only make the list shorter; the theorems hold for every list.) -/
+def aliveStep (H : HK → Int) (alive : Alive) (fresh : Restr) : Option Restr × Alive :=
+  match lookup H (alive.val.map fun r => (r, r)) fresh with
+  | some v => (some v, alive)
+  | none =>
+    (none, if h : wf fresh = true then
+        ⟨fresh :: alive.val, fun r hr => by
+          rcases List.mem_cons.mp hr with rfl | hr
+          · exact h
+          · exact alive.property r hr⟩
+      else alive)
+
+/-- what a cache policy may do: hand out only well-formed instances that compare equal to the one asked for -/
+def HitsEqual {σ : Type} (step : σ → Restr → Option Restr × σ) : Prop :=
+  ∀ s k v, (step s k).1 = some v → wf v = true ∧ eqv v k = true
+
 end Pkgcore.C07.Spec
